@@ -285,6 +285,7 @@ def execute(history):
     bump("variant:" + setup["variant"])
     U = set()
     streams = {}
+    obs = []
     old = signal.signal(signal.SIGALRM, _alarm)
     try:
         for opi, op in enumerate(history["ops"]):
@@ -337,6 +338,7 @@ def execute(history):
                     st["n"] += 1
                     bump("op:next")
                     path = m.path
+                    obs.append([opi, int(m.row), int(m.col), [list(map(int, t)) for t in path]])
                     v = check_path(path, (int(m.row), int(m.col)), M, U, spec["minlen"], "match %d of a kbest_matches(k=%s, minlen=%s, buffer=%s, restart=%s) stream" %
                                    (st["n"], spec["k"], spec["minlen"], spec["buffer"], spec["restart"]))
                     add(v, opi)
@@ -361,6 +363,7 @@ def execute(history):
                     for m in ms:
                         n += 1
                         path = m.path
+                        obs.append([opi, int(m.row), int(m.col), [list(map(int, t)) for t in path]])
                         add(check_path(path, (int(m.row), int(m.col)), M, U, op["minlen"], "match %d of kbest_matches_store(k=%s, buffer=%s, restart=%s, keep=%s)" %
                                        (n, op["k"], op["buffer"], op["restart"], op["keep"])), opi)
                         U.update((int(a), int(b)) for a, b in path)
@@ -402,7 +405,7 @@ def execute(history):
         signal.setitimer(signal.ITIMER_REAL, 0)
         signal.signal(signal.SIGALRM, old)
     return {"violations": viols[:4], "counters": cnt, "nontrivial": sessions.sessions_interleaved(history),
-            "digest": core.hash_obj([[v["class"], v["op"]] for v in viols])}
+            "digest": core.hash_obj([obs, [[v["class"], v["op"]] for v in viols]])}
 
 
 def signature(history, viol):
